@@ -17,3 +17,26 @@ JOBS = [
          enforce='multi_channel_refine_weights', replace=['vp_pow'], real='double', defines=['VP_NMAX=4096'],
          props=['C08']),
 ]
+
+RECIPES.update({
+    'discard_before': dict(name='discard_before'),
+    'discard_after': dict(name='discard_after'),
+})
+
+_SUBP = [('size_t', 'calls'), ('int', 'rank'), ('int', 'world')]
+_DISP = [('size_t', 'calls'), ('int', 'rank'), ('int', 'world'), ('size_t', 'usage')]
+_DIS2 = [('size_t', 'calls'), ('int', 'rank'), ('int', 'world'), ('size_t', 'usage'), ('size_t', 'sub_calls')]
+FRAGMENTS = {}
+for _d in ('mpi_plain', 'mpi_vegas', 'mpi_multi_channel'):
+    FRAGMENTS[_d + '_sub_calls'] = dict(unit='mpi', fn=_d, var='sub_calls', params=_SUBP, ret='size_t')
+    FRAGMENTS[_d + '_discard1'] = dict(unit='mpi', fn=_d, call=('discard', 0, 0), count=2, params=_DISP, ret='size_t')
+    FRAGMENTS[_d + '_discard2'] = dict(unit='mpi', fn=_d, call=('discard', 1, 0), count=2, params=_DIS2, ret='size_t')
+
+B2JOBS = [
+    dict(name='c16_tiling', mode='int', functions=['discard_before', 'discard_after'],
+         fragments=[f for f in sorted(FRAGMENTS)], property_file='specs/C16.smt2', props=['C16', 'C04'],
+         assumptions=['world size and rank are non-negative int values with rank < world (MPI_Comm_rank/MPI_Comm_size contract)']),
+]
+NATIVEJOBS = []
+REPLAYS = {'c16_tiling': dict(cpp='c16', link_fragments=sorted(FRAGMENTS))}
+PROPS = ['C%02d' % i for i in range(1, 21)]
